@@ -1078,6 +1078,17 @@ def explicit_before_star_rule(cx, rep, rid):
                 fl = [y for y in hwalk(x["recv"]) if self_field(y) is not None and "Vec<" in (y.get("ty") or "") and "BffFileName" in (y.get("ty") or "")]
                 if fl:
                     star_loops.append(x)
+        # .. or the walk sits in a helper of the same type (`self.lookup_in_extended(name, files)`)
+        for x in seq:
+            if x["k"] in ("Call", "MethodCall"):
+                cal = x.get("callee") if x["k"] == "Call" else (x.get("resolved") or x.get("callee"))
+                tg = F._callee_gid(f.crate, cal or "")
+                if tg in F.hir and tg != g and F.fns.get(tg) is not None and "/src/swc_tools/" in (F.fns[tg].file or ""):
+                    ht = F.hir[tg]
+                    if any(y["k"] == "Match" and y.get("src") == "ForLoopDesugar" and y["scrut"].get("args") and
+                           any(z["k"] == "Field" and z.get("name") == "extends" for z in hwalk(y["scrut"]["args"][0])) for y in hwalk(ht["body"])) and \
+                            not any(y["k"] == "MethodCall" and y.get("method") in ("get", "contains_key") and self_field(y["recv"]) is not None for y in hwalk(ht["body"])):
+                        star_loops.append(x)
         if not star_loops:
             continue
         # evaluation of the star walk STARTS at its first inner node
@@ -1092,7 +1103,7 @@ def explicit_before_star_rule(cx, rep, rid):
                "%s consults its own table%s `%s` only after the walk over the `export *` targets: a name the module re-exports explicitly (`export { X } from \"./b\"`) is answered from a star target that happens to export the same name (`export * from \"./a\"`), where TypeScript takes the explicit one" % (
                    g, "s" if len(late) > 1 else "", ", ".join(sorted({self_field(x["recv"])["name"] for x in late}))),
                "%s:%s" % (f.file, late[0].get("line") if late else f.line), sample={"fn": g, "own_lookups": len(own), "after_the_star_walk": len(late)})
-    rep.floor(rid, "export lookups that walk the star targets", n, 2)
+    rep.floor(rid, "export lookups that walk the star targets", n, 1)
 
 
 # ---------------------------------------------------------------------------------------------------- C09.17
